@@ -82,6 +82,19 @@ let () =
     let a = A.builder_adapter sc (nrows m) (Crs.nnz sc m) (fun i -> rows.(i)) in
     let c = A.to_crs sc a in
     dims a ^ " " ^ show_crs c ^ " " ^ show_crs c ^ " " ^ spmv1 c x);
+  (* block adapter composed with another adapter: the underlying adapter is a view (C17 view theorems), so the
+     model is the one of `block` *)
+  reg "block_over" (fun t -> let _under = t_s t in let b = t_i t in let m = t_crs t in let x = t_vec t in
+    let alpha = t_q t in let beta = t_q t in let y = t_vec t in
+    if b < 2 || b > 4 then raise (Model_exc "invalid_argument");
+    if m.Crs.ncols <> List.length m.Crs.rows then raise (Model_exc "invalid_argument");
+    let v = A.crs_view sc m in
+    if not (A.block_ok sc b v) then raise (Model_exc "runtime_error");
+    let a = A.block_adapter sc b v in
+    let g = A.to_gcrs a in
+    let sums = A.of_blocks sc (A.bspmv_sums sc b g (A.to_blocks sc b x)) in
+    dims a ^ " " ^ show_gcrs show_blk g ^ " " ^ show_gcrs show_blk g ^ " " ^ show_crs (A.unblock sc b g)
+    ^ " " ^ show_vec (Kernels.axpby sc alpha sums beta y));
   reg "block" (fun t -> let b = t_i t in let m = t_crs t in let x = t_vec t in
     let alpha = t_q t in let beta = t_q t in let y = t_vec t in
     if b < 2 || b > 4 then raise (Model_exc "invalid_argument");
